@@ -567,7 +567,47 @@ func checkMCPAudit(c *Ctx, m *mcpModel, rule string) {
 	for _, e := range emits {
 		res := resultOf(e)
 		construct := fmt.Sprintf("%s:audit result %q matches its branch", FuncName(fn), res)
+		// one emit whose result was chosen from the handler's error beforehand (`result := "success"; if err != nil
+		// { result = "error" }`): every alternative of the merged constant arrives over the edge that justifies it
+		if res == "?" {
+			var phi *ssa.Phi
+			for _, a := range e.Common().Args {
+				if ph, ok := a.(*ssa.Phi); ok && isStringT(ph.Type()) {
+					phi = ph
+				}
+			}
+			if phi != nil {
+				okAll := len(phi.Edges) > 0
+				var alts []string
+				for i, ed := range phi.Edges {
+					sv, isC := constString(ed)
+					if !isC {
+						okAll = false
+						continue
+					}
+					alts = append(alts, sv)
+					justified := false
+					for _, a := range edgeConds(phi.Block().Preds[i], phi.Block()) {
+						if !isNilConst(a.Y) || !isErrorT(a.X.Type()) || !m.isHandlerErr(a.X, map[ssa.Value]bool{}) {
+							continue
+						}
+						if (sv == "error" && a.Op == token.NEQ) || (sv == "success" && a.Op == token.EQL) {
+							justified = true
+						}
+					}
+					if !justified {
+						okAll = false
+					}
+				}
+				must2, _ := p.MustPass(fn, e, okE)
+				construct = fmt.Sprintf("%s:audit result %s matches its branch", FuncName(fn), strings.Join(alts, "/"))
+				c.Check(okAll && must2, rule, construct, p.InstrPos(e), "each alternative of the result arrives over the handler's err == nil / err != nil edge it stands for, after access was granted",
+					"the audit result is chosen from "+strings.Join(alts, "/")+" on an edge that does not establish it")
+				res = "merged"
+			}
+		}
 		switch res {
+		case "merged":
 		case "denied":
 			must, w := p.MustPass(fn, e, failE)
 			c.Check(must, rule, construct, p.InstrPos(e), "only on the refusing edge of the access check", "recorded as denied on a path where access was not refused: "+strings.Join(w, " → "))
